@@ -38,6 +38,8 @@ META = {
     "distinct = distinct tuple / history; non-trivial = the reference says the destination denotes an own listener (the guard must fire), "
     "or the history contains a runtime option change",
     "assumptions": [
+        "a listener on a link-local address reports its zone in the host text (fe80::5%eth0); a destination denotes it with the same zone, with the zone written "
+        "as interface index, or without zone (the zone is not part of the address); zoned destinations are judged on the guard only, not through an HTTP request",
         "reconfiguration histories run the real Master/options/Proxyserver.configure/Servers.update/ServerInstance.start+stop on the virtual loop; only the two "
         "socket-binding calls (asyncio.start_server, mitmproxy_rs.udp.start_udp_server) are replaced by fakes that complete when the environment says so; "
         "the reference is evaluated on the listeners open at the moment of each connect; depth 4 (quick) / 5 (thorough) over 7 option updates",
@@ -62,6 +64,8 @@ LISTEN = {
     "dual-loopback": [("127.0.0.1", P), ("::1", P, 0, 0)],  # listen_host "localhost"
     "specific-v4": [("192.0.2.5", P)],
     "specific-v6": [("2001:db8::5", P, 0, 0)],
+    # a listener on a link-local address: getsockname() reports the zone in the host text and the scope id
+    "specific-v6-zoned": [("fe80::5%eth0", P, 0, 3)],
 }
 LISTEN_THOROUGH = dict(LISTEN, **{
     "loopback-v4-other": [("127.0.0.2", P)],
@@ -113,6 +117,10 @@ def destinations(thorough):
     d += [("wildcard", "0.0.0.0"), ("wildcard", "::")]
     d += [("listen-ip", "192.0.2.5"), ("listen-ip", "2001:db8::5")]
     d += [("listen-ip-respelled", "2001:db8:0:0:0:0:0:5"), ("listen-ip-respelled", "2001:DB8::5")]
+    # zone identifiers: the listen address with its zone as reported, with the zone spelled as interface index, and without zone
+    d += [("listen-ip", "fe80::5%eth0"), ("listen-ip-zone-variant", "fe80::5%3"), ("listen-ip-zone-variant", "fe80::5"),
+          ("listen-ip-zone-variant", "FE80:0:0:0:0:0:0:5%eth0")]
+    d += [("loopback-zoned", "::1%lo")]
     if thorough:
         d += [("listen-ip", "fe80::5"), ("listen-ip-respelled", "2001:0db8::0005"), ("listen-ip-respelled", "FE80::5")]
     d += [("listen-ip-mapped", "::ffff:192.0.2.5")]
@@ -587,6 +595,8 @@ def gen_world_cases(thorough):
     cases = []
     for lname, addrs in listen.items():
         for kind, host in destinations(False):
+            if "%" in host:
+                continue  # a zone identifier cannot be written into an HTTP request target portably; judged on the guard only
             for port in (P, P_OTHER):
                 cases.append({"via": "world", "kind": kind, "host": host, "port": port, "transport": "tcp", "listen": lname, "arr": "single",
                               "servers": [["regular", [list(a) for a in addrs]]]})
@@ -610,7 +620,7 @@ def self_test():
             raise HarnessError("destination %r should be a name" % host)
         if kind not in ("public-name", "localhost", "localhost-case", "localhost-dot") and h[0] != "ip":
             raise HarnessError("destination %r should parse as an address" % host)
-        want_lb = kind in ("localhost", "localhost-case", "localhost-dot", "127.0.0.1", "loopback-v4-other", "::1", "::1-respelled", "mapped-loopback")
+        want_lb = kind in ("localhost", "localhost-case", "localhost-dot", "127.0.0.1", "loopback-v4-other", "::1", "::1-respelled", "mapped-loopback", "loopback-zoned")
         if is_loopback(h) != want_lb:
             raise HarnessError("reference classifies %r (%s) loopback=%r" % (host, kind, is_loopback(h)))
 
